@@ -67,6 +67,14 @@ def replay_post(design, passname, postfn):
 
 
 def run(ctx):
+    import contracts.corecircuits     # noqa: F401
+    from pyvc.contract import REGISTRY
+    from pyvc import run as prun
+    cs = [c for c in REGISTRY.values() if 'C03' in c.props]
+    prun.run_contracts(ctx, cs, 'contracts.corecircuits')
+    ctx.assume('builder model (contracts/wiremodel.py): wire = (bitwidth, den); add_net = [WF_net obligation] + '
+               '[dest.den := documented value]; operators used inside the generators are summarised by their own '
+               'contracts (contracts/wire.py, proved under C06); recursion by induction on the stated measure')
     fam = designs.family(ctx.tier, ctx.seed)
     k = 2 if ctx.tier == 'quick' else 3
     tasks = []
@@ -78,6 +86,8 @@ def run(ctx):
     passcheck.run_family(ctx, 'C03.synthesize_equiv', tasks, FUNCS,
                          'synthesize() result differs from the source design')
     ctx.assume('z3 soundness; spec/netsem.py is the reading of the LogicNet docstring')
-    return ctx.finish('other', './check C03', ['z3', 'spec/netsem.py', 'elab/n2smt.py'],
-                      'bounded stand-in: real synthesize() run per design; equivalence decided by '
-                      'SMT for all inputs/states of each instance')
+    return ctx.finish('other', './check C03', ['z3', 'pyvc', 'spec/netsem.py', 'elab/n2smt.py'],
+                      'P: _one_bit_add, _add_helper (induction on width), _basic_add, _basic_sub, _basic_lt '
+                      '(induction), _basic_gt compute the documented value of + - < > at the documented width '
+                      'for all widths and values; bounded stand-in: real synthesize() run per design; '
+                      'equivalence decided by SMT for all inputs/states of each instance')
